@@ -137,3 +137,40 @@ M('backoff-zero-start-next', 'C15', 'iterutils.py',
 M('backoff-count-validation-late', 'C15', 'iterutils.py',
   "    if count != 'repeat' and count < 0:\n        raise ValueError('count must be positive or \"repeat\", not %r' % count)",
   "    if count != 'repeat' and count < -1:\n        raise ValueError('count must be positive or \"repeat\", not %r' % count)")
+
+# ---------------------------------------------------------------- C06
+M('url-path-safe-allows-questionmark', 'C06', 'urlutils.py',
+  "_PATH_SAFE = _UNRESERVED_CHARS | _SUB_DELIMS | set(':@')", "_PATH_SAFE = _UNRESERVED_CHARS | _SUB_DELIMS | set(':@?')")
+M('url-userinfo-safe-allows-colon', 'C06', 'urlutils.py',
+  "_USERINFO_SAFE = _UNRESERVED_CHARS | _SUB_DELIMS\n", "_USERINFO_SAFE = _UNRESERVED_CHARS | _SUB_DELIMS | set(':')\n")
+M('url-query-plus-not-quoted', 'C06', 'urlutils.py',
+  "_FRAGMENT_SAFE - set('&=+;')", "_FRAGMENT_SAFE - set('&=;')")
+M('url-unquote-lowercase-hex', 'C06', 'urlutils.py',
+  "                 for a in string.hexdigits for b in string.hexdigits}",
+  "                 for a in string.hexdigits for b in string.hexdigits if (a + b) != 'c3'}")
+M('url-fragment-not-unquoted-when-hash', 'C06', 'urlutils.py',
+  "        self.fragment = (unquote(ud['fragment'])\n                         if '%' in (ud['fragment'] or _e) else ud['fragment'] or _e)",
+  "        self.fragment = (unquote(ud['fragment'])\n                         if '%2' in (ud['fragment'] or _e) else ud['fragment'] or _e)")
+M('url-port-valueerror-leaks', 'C06', 'urlutils.py',
+  "            try:\n                port = int(port_str)\n            except ValueError:\n                if port_str:  # empty ports ok according to RFC 3986 6.2.3\n                    raise URLParseError('expected integer for port, not %r'\n                                        % port_str)\n                port = None",
+  "            if port_str.isdigit() or not port_str:\n                port = int(port_str) if port_str else None\n            else:\n                raise URLParseError('expected integer for port, not %r'\n                                    % port_str)")
+M('url-password-quoted-as-path', 'C06', 'urlutils.py',
+  "                _add(':')\n                _add(quote_userinfo_part(self.password))",
+  "                _add(':')\n                _add(quote_path_part(self.password))")
+
+# ---------------------------------------------------------------- C07
+M('nav-dotdot-unroots', 'C07', 'urlutils.py',
+  "            if ret and (len(ret) > 1 or ret[0]):  # prevent unrooting", "            if ret and (len(ret) > 2 or ret[0]):  # prevent unrooting")
+M('nav-trailing-dot-no-slash', 'C07', 'urlutils.py',
+  "    if list(path_parts[-1:]) in (['.'], ['..']):", "    if list(path_parts[-1:]) in (['.'],):")
+M('nav-keeps-base-query-with-path', 'C07', 'urlutils.py',
+  "        query_params = dest.query_params\n\n        if dest.path:",
+  "        query_params = dest.query_params or self.query_params\n\n        if dest.path:")
+M('nav-keeps-base-fragment', 'C07', 'urlutils.py',
+  "                              fragment=dest.fragment,", "                              fragment=dest.fragment or self.fragment,")
+M('nav-relative-drops-last-dir', 'C07', 'urlutils.py',
+  "                base_path_parts = list(self.path_parts[:-1])\n",
+  "                base_path_parts = list(self.path_parts[:-1])\n                if len(base_path_parts) > 3 and not self.path_parts[-1]:\n                    base_path_parts.pop()\n")
+M('nav-mutates-base-query', 'C07', 'urlutils.py',
+  "            if not query_params:\n                query_params = self.query_params",
+  "            if not query_params:\n                query_params = self.query_params\n            else:\n                self.query_params.update(query_params)")
